@@ -62,6 +62,23 @@ def _callers_request_only(ctx, model, f, depth=2) -> tuple[bool, str]:
 
 def run(ctx: Ctx):
     model = ctx.model
+    from .common_node import names_resolve
+    names_resolve(ctx, "C07-RN")
+    from . import c05 as _c05
+    ctx.include(_c05.run, {"C05-R6"}, "C07-R10",
+                "the reader hands every parsed request to the node once: the per-frame variables "
+                "are reset on every turn of the framing loop (a request dispatched twice is "
+                "answered twice)", floor=1,
+                constructs=lambda c: c.startswith("work_read_queue:message-reset")
+                or c.startswith("work_read_queue:parsed-frame"))
+    from . import c19 as _c19
+    ctx.include(_c19.run, {"C19-G1"}, "C07-R11",
+                "the record of an unanswered request is removed by every answer that is sent "
+                "(the handler-failure branch of _receive_message answers only while the record "
+                "exists)", floor=1,
+                constructs=lambda c: "_origin_waiting_answer" in c)
+    from .common_node import single_transmit_gate
+    single_transmit_gate(ctx, "C07-R9")
     R = RecvModel(ctx)
     nc = R.nc
     E = effects_of(model)
